@@ -1,5 +1,6 @@
 import TextxVerif.Proofs.ProcWalk
 import TextxVerif.Proofs.ProcOrder
+import TextxVerif.Proofs.ProcLoad
 /-!
 # C13 — object processors run once each, bottom-up, on a fully linked model
 
@@ -388,6 +389,102 @@ theorem C13_replace_keep (M : MM) (S : Script) (id cls : Nat) (fs : Fields) (gm 
   rcases hown with h | h | h <;> rcases hdecl with h' | h' <;>
     simp [chosen, h, h', retOf, pick]
 
+/-! ## D13: "only after all references are resolved" — the resolutions come from the loop
+
+`C13_phase*` take the resolutions as a given list.  `loadEvents` obtains them from
+the model of the resolution loop itself (`LinkLoc.run`: every scope provider, every
+postponement schedule), and reaches initialisation and the walk only when that loop
+ends without error. -/
+
+/-- **Fully linked before the first processor call.** If a load produces events at
+all (in particular: if any processor is called), then the resolution loop ended
+with no pending cross-reference in any model; every reference of every model file
+was answered with an object by its scope provider (the first time it did not
+postpone); and the event sequence is: one resolution per reference of every file,
+then the user-class initialisations of every model, then the processor calls. -/
+theorem C13_linked_before_processing (files : List LinkLoc.FileSpec) (ans : Nat → Nat → LinkLoc.Answer)
+    (fuel : Nat) (S : Script) (isUser : Nat → Bool) (models : List (MM × Val)) (evs : List Ev)
+    (htext : ∀ f ∈ files, f.refs.Pairwise (fun a b => a.pos < b.pos))
+    (h : loadEvents files ans fuel S isUser models = some evs) :
+    (∃ ms, LinkLoc.run files ans fuel = .ok ms ∧ ∀ m ∈ ms, m.crossrefs = []) ∧
+    (∀ f ∈ files, ∀ r ∈ f.refs, ∃ k t, LinkLoc.FirstAnswer ans r.id k (.resolved t)) ∧
+    evs = (files.flatMap (fun f => f.refs.map (·.id))).map Ev.resolve ++
+          (initsFrom isUser 0 (models.map (·.2)) ++ procsFromMM S 0 models) := by
+  unfold loadEvents at h
+  cases hr : LinkLoc.run files ans fuel with
+  | ok ms =>
+    rw [hr] at h
+    simp only [Option.some.injEq] at h
+    have hl := run_ok_linked files ans fuel ms htext hr
+    refine ⟨⟨ms, rfl, ?_⟩, ?_, ?_⟩
+    · intro m hm
+      obtain ⟨f, _, hf⟩ := All2.mem_right hl m hm
+      exact hf.1
+    · intro f hf r hr'
+      obtain ⟨m, _, hm⟩ := All2.mem_left hl f hf
+      exact hm.2.2 r hr'
+    · rw [← h, finishMM, resolvedRefs_eq files ms (hl.imp (fun _ _ hfm => hfm.2.1))]
+  | err e => rw [hr] at h; simp at h
+  | crash => rw [hr] at h; simp at h
+  | fuel => rw [hr] at h; simp at h
+
+/-- …so the resolution of every reference of every model precedes every processor
+call (and every initialisation), and nothing is resolved afterwards -/
+theorem C13_resolved_precede_processing (files : List LinkLoc.FileSpec) (ans : Nat → Nat → LinkLoc.Answer)
+    (fuel : Nat) (S : Script) (isUser : Nat → Bool) (models : List (MM × Val)) (evs : List Ev)
+    (htext : ∀ f ∈ files, f.refs.Pairwise (fun a b => a.pos < b.pos))
+    (h : loadEvents files ans fuel S isUser models = some evs) :
+    ∃ pre post, evs = pre ++ post ∧
+      (∀ f ∈ files, ∀ r ∈ f.refs, Ev.resolve r.id ∈ pre) ∧
+      (∀ e ∈ pre, e.isProc = false) ∧
+      (∀ e ∈ post, ∀ n, e ≠ Ev.resolve n) ∧
+      (∀ e ∈ evs, e.isProc = true → e ∈ post) := by
+  obtain ⟨_, _, he⟩ := C13_linked_before_processing files ans fuel S isUser models evs htext h
+  refine ⟨_, _, he, ?_, ?_, ?_, ?_⟩
+  · intro f hf r hr
+    exact List.mem_map.2 ⟨r.id, List.mem_flatMap.2 ⟨f, hf, List.mem_map.2 ⟨r, hr, rfl⟩⟩, rfl⟩
+  · intro e he'
+    obtain ⟨n, _, rfl⟩ := List.mem_map.1 he'
+    rfl
+  · intro e he' n hn
+    subst hn
+    rcases List.mem_append.1 he' with h1 | h1
+    · -- an initialisation event is not a resolution
+      have : ∀ (vs : List Val) (k : Nat), Ev.resolve n ∉ initsFrom isUser k vs := by
+        intro vs
+        induction vs with
+        | nil => intro k; simp [initsFrom]
+        | cons v vs ih =>
+          intro k hmem
+          rw [initsFrom] at hmem
+          rcases List.mem_append.1 hmem with hm | hm
+          · simp only [userInits, List.mem_map] at hm
+            obtain ⟨o, _, ho⟩ := hm
+            cases ho
+          · exact ih (k + 1) hm
+      exact this _ 0 h1
+    · have := procsFromMM_proc S models 0 _ h1
+      simp [Ev.isProc] at this
+  · intro e he' hp
+    rw [he] at he'
+    rcases List.mem_append.1 he' with h1 | h1
+    · obtain ⟨n, _, rfl⟩ := List.mem_map.1 h1
+      simp [Ev.isProc] at hp
+    · exact h1
+
+/-- a load that fails in parsing or in reference resolution (syntax error, unknown
+object, unresolvable references) calls no processor at all -/
+theorem C13_unlinked_no_processing (files : List LinkLoc.FileSpec) (ans : Nat → Nat → LinkLoc.Answer)
+    (fuel : Nat) (S : Script) (isUser : Nat → Bool) (models : List (MM × Val))
+    (h : ∀ ms, LinkLoc.run files ans fuel ≠ .ok ms) :
+    loadEvents files ans fuel S isUser models = none := by
+  unfold loadEvents
+  cases hr : LinkLoc.run files ans fuel with
+  | ok ms => exact absurd hr (h ms)
+  | err e => rfl
+  | crash => rfl
+  | fuel => rfl
+
 /-! ## non-vacuity
 
 classes: 0 `Model` (common), 1 `A` (common), 2 `B` (common), 3 `Base` (abstract: A | B | INT), 4 `INT` (match).
@@ -436,5 +533,21 @@ example : ((walk exM exS exV 0).log.map Entry.key).idxOf (3, 12) = 0 ∧
     ((walk exM exS exV 0).log.map Entry.key).idxOf (1, 11) = 1 := by decide
 example : ((walk exM exS exV 0).log.map Entry.key).count (3, 13) = 1 := by decide
 example : slotVal (walk exM exS (.obj 13 2 .nil) 3) = .obj 13 2 .nil := by rfl
+
+/-! D13 non-vacuity: a load of two files with three references (reference 0 postponed
+once), the object tree `exV` for the main model; and a load with an unresolvable
+reference, which reaches no processor -/
+def exFiles : List LinkLoc.FileSpec :=
+  [⟨some "a", List.replicate 70 'x', [⟨0, 40, 45⟩, ⟨1, 58, 61⟩], none⟩,
+   ⟨some "b", List.replicate 9 'x', [⟨2, 3, 4⟩], none⟩]
+
+example : ∀ f ∈ exFiles, f.refs.Pairwise (fun a b => a.pos < b.pos) := by decide
+example : loadEvents exFiles
+      (fun k id => if k = 0 ∧ id = 0 then .postponed else .resolved ⟨some "b", id, id + 5⟩) 4
+      exS (fun c => c = 1) [(exM, exV)] =
+    some [.resolve 0, .resolve 1, .resolve 2, .init 0 11, .init 0 14,
+          .proc 0 3 12, .proc 0 1 11, .proc 0 3 11, .proc 0 3 13, .proc 0 1 14, .proc 0 0 10] := by decide
+example : loadEvents exFiles (fun _ id => if id = 1 then .postponed else .resolved ⟨some "b", id, id + 5⟩) 4
+      exS (fun c => c = 1) [(exM, exV)] = none := by decide
 
 end Proc
